@@ -75,16 +75,16 @@ theorem inclusive_root_step (cfg : Config) (hnew : cfg.matches .new = true) (hir
   generalize hx : phase ⟨s', [], none, false⟩ [⟨.new, b, b.ref, cursorLIB s', none, 0, 0⟩] = x at hp
   rw [if_neg (by rw [hp.1]; simp)]
   have hn1 := processIrr_nofail cfg { x with st := initSt newly b x.st } [⟨b, true⟩] b.ref (fun _ => none) ⟨hp.1, hp.2.1⟩
-  obtain ⟨seen, hseen⟩ := processIrr_st cfg { x with st := initSt newly b x.st } [⟨b, true⟩] b.ref (fun _ => none)
+  have hseen := processIrr_st_nofail cfg { x with st := initSt newly b x.st } [⟨b, true⟩] b.ref (fun _ => none) hp.1 hp.2.1 ⟨b, true⟩ (by simp)
   have hfinst : (finish (processIrr cfg { x with st := initSt newly b x.st } [⟨b, true⟩] b.ref)).1 =
-      { initSt newly b s' with lastLIBSeen := seen } := by
+      { initSt newly b s' with lastLIBSeen := b.ref } := by
     unfold finish; simp only; rw [hseen]; simp only [hp.2.2.2]
   have hfinevs : (finish (processIrr cfg { x with st := initSt newly b x.st } [⟨b, true⟩] b.ref)).2.1 =
       [⟨.new, b, b.ref, cursorLIB s', none, 0, 0⟩] ++ irrEvents cfg [⟨b, true⟩] b.ref (fun _ => none) := by
     unfold finish; simp only; rw [hn1.2.2]; simp only [hp.2.2.1, List.nil_append]
   rw [hfinst, hfinevs]
   -- the buffer after the step
-  have hdbfin : ∃ dbf, ({ initSt newly b s' with lastLIBSeen := seen } : FState).db = dbf ∧ dbf.libRef = s.db.libRef ∧
+  have hdbfin : ∃ dbf, ({ initSt newly b s' with lastLIBSeen := b.ref } : FState).db = dbf ∧ dbf.libRef = s.db.libRef ∧
       WfEntries dbf ∧ Heights dbf ∧ Inv2 U F dbf ∧ CacheOK { s with db := dbf } := by
     rcases hcases with ⟨hn, hd, _⟩ | ⟨hn, hd, hf⟩
     · subst hn; subst hd
@@ -120,7 +120,9 @@ theorem inclusive_root_step (cfg : Config) (hnew : cfg.matches .new = true) (hir
   refine ⟨?_, by simp [initSt], by rw [hdbf, hlibf], ?_, by rw [hdbf]; exact hJf⟩
   · rw [List.map_append, irrEvents_sb cfg hirr]
     simp [sbOf]
-  · apply inv_seen
+  · have hbref : b.ref = s.db.libRef := by
+      cases hr : s.db.libRef with
+      | mk i n => rw [hr] at hid hnum; simp only [Blk.ref]; rw [hid, hnum]
     have hstate : initSt newly b s' = { s with db := dbf, lastSent := some b } := by
       have := hdbf
       simp only [initSt] at this ⊢
@@ -128,7 +130,8 @@ theorem inclusive_root_step (cfg : Config) (hnew : cfg.matches .new = true) (hir
       simp only at this ⊢
       rw [this]
     rw [hstate]
-    refine ⟨by simp only; rw [hlibf]; exact hI.libNe, hwf, hhf, trivial, by simp, by simp, ?_, ?_, ?_, ?_⟩
+    apply inv_seen _ _ _ _ (by simp only; rw [hlibf]; exact hbref)
+    refine ⟨by simp only; rw [hlibf]; exact hI.libNe, hwf, hhf, trivial, by simp, by simp, ?_, ?_, ?_, ?_, ?_⟩
     · intro l hl
       simp only [Option.some.injEq] at hl
       simp only; rw [hlibf, ← hl, hid]; rfl
@@ -144,5 +147,6 @@ theorem inclusive_root_step (cfg : Config) (hnew : cfg.matches .new = true) (hir
       · rw [← hdbf] at hin
         simp only [initSt, hs'db, hd] at hin
         split at hin <;> exact hI.initOk i n hin
+    · simp only; rw [hlibf]; exact hI.seen
 
 end BstreamVerif.Forkable
